@@ -31,7 +31,7 @@ ASSUMPTIONS = ["selection operations (downsample / motion filter) are followed t
                "the projected heading of non-planar poses is taken from the object after the "
                "C14 clauses passed (no statement fixes it)"]
 PI = math.pi
-VIEWS = ["p", "q", "T", "e"]
+VIEWS = ["p", "q", "T", "e", "d", "s"]
 
 
 class Mismatch(Exception):
@@ -87,6 +87,21 @@ def read_and_compare(run, case, real, sh, views, step, opname):
                         ok = False
                         break
             name = "euler angles match the model"
+        elif vw == "d":
+            if sh.n < 1:
+                continue
+            tol = 1e-9 * sh.mag * max(1, sh.n)
+            got = np.array(real.distances, dtype=float)
+            ok = got.shape == (sh.n, ) and float(np.max(np.abs(got - sh.distances()))) <= tol and \
+                abs(real.path_length - sh.path_length()) <= tol
+            name = "accumulated distances / path length match the model (read between operations)"
+        elif vw == "s":
+            if sh.t is None or sh.n < 2:
+                continue
+            got = np.array(real.speeds, dtype=float)
+            exp = sh.speeds()
+            ok = got.shape == exp.shape and bool(np.all(np.abs(got - exp) <= 1e-9 * (np.abs(exp) + sh.mag / np.diff(sh.t))))
+            name = "speeds match the model (read between operations)"
         elif vw == "t":
             got = np.array(real.timestamps, dtype=float)
             ok = got.shape == sh.t.shape and core.bits_equal(got, sh.t)
@@ -104,7 +119,8 @@ def read_and_compare(run, case, real, sh, views, step, opname):
             run.violation("view-disagrees:" + vw, "after step %d (%s) the %s read from the object "
                           "disagree with the documented effect of the operations so far" %
                           (step, opname, {"p": "positions", "q": "quaternions", "T": "pose matrices",
-                                          "e": "euler angles", "t": "timestamps", "n": "pose count"}[vw]),
+                                          "e": "euler angles", "t": "timestamps", "n": "pose count",
+                                          "d": "accumulated distances / path length", "s": "speeds"}[vw]),
                           case, step=step, op=opname)
             raise Mismatch()
 
@@ -168,6 +184,8 @@ def gen_op(rng, sh, stamped, projected):
     elif name == "sim":
         T = rand_T(rng, mag)
         s = 10.0**rng.uniform(-0.3, 0.3)
+        if rng.random() < .3:  # a similarity whose scale is close to, but not, 1
+            s = 1.0 + (1 if rng.random() < .5 else -1) * 10.0**rng.uniform(-8, -3)
         T[:3, :3] *= s
         op["T"] = T
     elif name == "scale":
@@ -383,8 +401,8 @@ class LazyOps:
                 op["op"] = "tr"
             else:
                 self.amp *= max(sh.n, 1)
-        op["pre"] = [VIEWS[i] for i in range(4) if rng.random() < .25]
-        op["post"] = [VIEWS[i] for i in range(4) if rng.random() < .3]
+        op["pre"] = [v for v in VIEWS if rng.random() < .25]
+        op["post"] = [v for v in VIEWS if rng.random() < .3]
         return op
 
 
@@ -444,7 +462,7 @@ def k_exhaustive(run, case):
     mode = case["mode"]
     depth = case["depth"]
     A = alphabet(stamped)
-    reads = [[], ["p"], ["q"], ["T"], ["e"]]
+    reads = [[], ["p"], ["q"], ["T"], ["e"], ["d"]]
     steps = [(a, r) for a in range(len(A)) for r in range(len(reads))]
     space = itertools.product(range(len(steps)), repeat=depth)
     rng = np.random.default_rng(99)
